@@ -242,6 +242,16 @@ NEEDS = {
     "C19-6B": "the dying worker is worker 00 (`if bad_worker:` is falsy for index 0)",
     "C20-6A": "HyperLogLog file cut at exactly header+1 bytes (np.copyto broadcasts a single register)",
     "C20-6B": "HeavyHitters file cut 1-8 bytes from the end (unrecognised trailer = 'legacy file', check skipped)",
+    "C01-7A": "add(key, 0) / a zero entry in update(dict): new default value=None is normalised with `value or 1`",
+    "C03-7A": "two sketches saved side by side under names that differ only after the last dot (shard.0 / shard.1): with_suffix() maps both to one file",
+    "C05-7A": "multiplicity exactly 0 (all three count-min classes): `value or 1` turns it into one add",
+    "C08-7A": "a callback returning its record count as a numpy integer (isinstance(n_recs, int) fails: counted as 0)",
+    "C09-7A": "log merge reaching max_count with a max_count whose low 8/16 bits are not all ones (the ceiling is written as max_count, truncated)",
+    "C10-7A": "log sketch with max_count > 2^53 not representable as a double (args saved as float64 with the base appended)",
+    "C12-7A": "HeavyHitters.update(dict) holding two distinct long keys that share their first max_key_len bytes (dict re-keyed by the truncated key)",
+    "C13-7A": "default threshold on a nearly empty wide sketch (0 < phi*n_added() < 1): resolved twice, becomes floor(phi*n^2)",
+    "C16-7A": "log8/log16 owner with a non-default max_count, view made by attach_shared_memory (parameter whitelist forgets max_count)",
+    "C19-7A": "the dying worker is worker 00 (`if failed_worker:` is falsy for index 0)",
 }
 
 
@@ -256,11 +266,11 @@ def r2_baseline():
     """Exit codes of the round-2 changes against the PREVIOUS version of the checks."""
     out = {}
     for f in ("r2_before.log", "r2_before_b2.log", "r3_before.log", "r3_before_b2.log",
-              "r4_before.log", "r5_before.log", "r6_before.log"):
+              "r4_before.log", "r5_before.log", "r6_before.log", "r7_first_contact.log"):
         p = os.path.join(VERIF_DIR, "seeded", f)
         if os.path.exists(p):
             for line in open(p):
-                m = re.match(r"(C\d+-[23456][AB]) (C\d+) exit=(\d+)", line)
+                m = re.match(r"(C\d+-[234567][AB]) (C\d+) exit=(\d+)", line)
                 if m:
                     out[m.group(1)] = int(m.group(3))
     return out
